@@ -175,7 +175,9 @@ _claim("C19", "other",
 _EXTRA = {
     "C04": " Additive-variance clauses: var_A == population variance of the breeding values, var_a == ploidy^2 * sum u^2 p(1-p) and the Bulmer ratio are "
            "proved bounded-symbolically (<=3 taxa x 2 markers x 2 traits) for phased, unphased and raw inputs.",
-    "C05": " The usefulness-criterion helper _calc_uc is proved (bounded shapes, all values) to be sum_k epgc_k*bv[parent_k] + intensity*sqrt(var[cross]) with the "
+    "C05": " The norm-type criteria (mean genomic relationship, optimal contribution, L2 genomic distance) are proved bounded-symbolically to return the "
+           "2-norm of factor x normalised contributions (and minus the contribution-weighted mean breeding values for OCS) in all four encodings, order- and "
+           "scale-invariant. The usefulness-criterion helper _calc_uc is proved (bounded shapes, all values) to be sum_k epgc_k*bv[parent_k] + intensity*sqrt(var[cross]) with the "
            "variance factory's own, possibly unequal, expected parental contributions for 2-, 3- and 4-parent designs.",
     "C06": " SteepestDescentSubsetHillClimber.minimize is executed with an independent symbolic objective value and constraint violation per subset (<=4 candidates, "
            "thorough 5): it terminates, stops only where no single exchange improves (violation first, then score), never ends worse than it started, reports truthful values; "
@@ -202,5 +204,19 @@ _EXTRA = {
            " Both trans_ndpt_to_vec_dist implementations are proved (fronts of <=2 points x 2 objectives, thorough 3; coordinates symbolic) to return the distance of the "
            "range-normalised weighted point to the preference ray, every positive range being rescaled however small and exactly constant objectives contributing 0.",
 }
-for _k, _v in _EXTRA.items():
+_EXTRA2 = {
+    "C01": " The parental matrix of the protocol units carries symbolic chromosome-group index vectors, so a protocol that edits the crossover "
+           "probabilities at group boundaries fails the 'kernel gets the parental matrix's probabilities' obligation; the native ring uses several chromosomes.",
+    "C02": " The Kosambi map function has the same lemma unit as Haldane (values in [0,1/2], zero to zero, +inf to exactly one half on IEEE doubles).",
+    "C03": " The three- and four-way variance matrices (three / four square taxa axes, all structural operations inherited) are classes of the A1 proof and of the "
+           "native history ring; numpy.ix_ and nested takes along different axes are part of the opaque array algebra (canonical axis order).",
+    "C04": " The numpy-level var_a_numpy / bulmer_numpy are also proved for an explicit tetraploid ploidy.",
+    "C09": " Every statistic is proved again after new allele calls were written in place through the array that .mat hands out (no statistic may be served from a stale cache).",
+    "C11": " The physical-position wrappers gdist1p / gdist2p (both map classes, with and without index windows) and rprob1g/2g/1p/2p (both map functions) are "
+           "executed on recording stand-ins: positions are interpolated for ALL markers, the genetic-position routine gets those and the caller's window, its result is returned (through mapfn for rprob*).",
+    "C14": " TruePhenotyping.phenotype is proved (bounded shapes) to report exactly the bound model's true genotypic values (gegv, not gebv) with the labels carried.",
+    "C18": " The OPV and genotype-builder latentfn are proved (bounded shapes, all block values) to equal minus ploidy times the block-wise best value among the selected "
+           "individuals for the block values the problem holds NOW: on construction, after the haplomat setter and after an in-place write.",
+}
+for _k, _v in list(_EXTRA.items()) + list(_EXTRA2.items()):
     CLAIMED[_k]["text"] += _v
